@@ -8,9 +8,9 @@
    pseudo_selections, pseudo_expected, ...) are at the top of Proofs/HeaderCollectProofs.v and
    Proofs/HeaderWireProofs.v. *)
 From ReqV Require Import Lib.Bytes Model.HeaderOrder Model.HeaderCollect
-  Model.HeaderMerge Model.HeaderSeq Model.HeaderResend Model.HeaderShared Model.HeaderFrag Model.HeaderRedirect
+  Model.HeaderMerge Model.HeaderSeq Model.HeaderResend Model.HeaderShared Model.HeaderFrag Model.HeaderRedirect Model.HeaderAbandon
   Proofs.HeaderOrderProofs Proofs.HeaderCollectProofs Proofs.HeaderWireProofs Proofs.HeaderSyncProofs
-  Proofs.HeaderMergeProofs Proofs.HeaderKeySortProofs Proofs.HeaderSeqProofs Proofs.HeaderResendProofs Proofs.HeaderSharedProofs Proofs.HeaderFragProofs Proofs.HeaderRedirectProofs Gen.HeaderSrc.
+  Proofs.HeaderMergeProofs Proofs.HeaderKeySortProofs Proofs.HeaderSeqProofs Proofs.HeaderResendProofs Proofs.HeaderSharedProofs Proofs.HeaderFragProofs Proofs.HeaderRedirectProofs Proofs.HeaderAbandonProofs Gen.HeaderSrc.
 From Coq Require Import NArith.
 From Coq Require Import Permutation Sorting.Sorted.
 
@@ -668,6 +668,51 @@ Theorem C16_policy_exact_spelling_refuted :
 Proof. exact policy_exact_spelling_refuted. Qed.
 Print Assumptions C16_policy_exact_spelling_refuted.
 
+(* ===================== part 2f: a request given up, or whose stream fails, and the ones after it ===================== *)
+
+(* HTTP/2 (Model/HeaderAbandon.v): for every sequence of requests on one connection - sent, refused
+   for their size, given up before their headers are encoded, in any mix - any starting table and any
+   stateful codec that is lossless while the decoder sees every block: the encoder's table and the
+   peer's table are equal at the end, and the peer decoded exactly the field lists of the requests
+   that were sent *)
+Theorem C16_h2_tables_agree :
+  forall (T B : Type) (enc : T -> list line -> B * T) (dec : T -> B -> option (list line) * T),
+  (forall t ls, dec t (fst (enc t ls)) = (Some ls, snd (enc t ls))) ->
+  forall max qfs t,
+  exists t', h2_run dec (h2_step_fate enc) max t t qfs =
+             (map (fun qf => Some (h2_lines (fst qf))) (filter (delivered max) qfs), t', t').
+Proof. exact (@h2_tables_agree). Qed.
+Print Assumptions C16_h2_tables_agree.
+
+(* with the cancel check behind encodeHeaders the tables differ after a request given up there and
+   the request that follows is not decoded *)
+Theorem C16_h2_cancel_after_encode_refuted :
+  let qfs := [(small_req (bs "1"), false); (small_req (bs "2"), true); (small_req (bs "3"), false)] in
+  h2_run num_dec (h2_step_fate num_enc) (@None N) 0 0 qfs =
+    ([Some (h2_lines (small_req (bs "1"))); Some (h2_lines (small_req (bs "3")))], 2, 2) /\
+  h2_run num_dec (h2_step_fate_late num_enc) (@None N) 0 0 qfs =
+    ([Some (h2_lines (small_req (bs "1"))); None], 3, 1).
+Proof. exact h2_cancel_after_encode_refuted. Qed.
+Print Assumptions C16_h2_cancel_after_encode_refuted.
+
+(* HTTP/3: for every sequence of requests on one connection's request writer, whichever of them lose
+   their stream while the HEADERS frame is written, every frame that is written is the frame of its
+   own request's field section *)
+Theorem C16_h3w_session_clean : forall (sec : creq -> bytes) (frame : bytes -> bytes) reqs,
+  h3w_session (h3w_step sec frame) [] reqs =
+  map (fun qo : creq * bool => if snd qo then Some (frame (sec (fst qo))) else None) reqs.
+Proof. exact h3w_session_clean. Qed.
+Print Assumptions C16_h3w_session_clean.
+
+Theorem C16_h3w_leaky_refuted :
+  let sec := fun q : creq => c_path q in
+  let frame := fun b : bytes => b in
+  let q1 := small_req (bs "1") in
+  h3w_session (h3w_step sec frame) [] [(q1, false); (q1, true)] = [None; Some (bs "/")] /\
+  h3w_session (h3w_step_leaky sec frame) [] [(q1, false); (q1, true)] = [None; Some (bs "//")].
+Proof. exact h3w_leaky_refuted. Qed.
+Print Assumptions C16_h3w_leaky_refuted.
+
 (* ===================== part 3: the source the model transcribes ===================== *)
 (* Gen/HeaderSrc.v is regenerated from the working tree on every run; these statements pin the text
    of the small functions the model was written from and the names the collectors write. *)
@@ -723,6 +768,12 @@ Theorem C16_round5_go_as_modelled :
   src_h2_writeHeaders = bs "{ first := true for len(hdrs) > 0 && cc.werr == nil { chunk := hdrs max := maxFrameSize if first && !cc.t.HeaderPriority.IsZero() && max > 5 { max -= 5 } if len(chunk) > max { chunk = chunk[:max] } hdrs = hdrs[len(chunk):] endHeaders := len(hdrs) == 0 if first { cc.fr.WriteHeaders(HeadersFrameParam{StreamID: streamID, BlockFragment: chunk, EndStream: endStream, EndHeaders: endHeaders, Priority: cc.t.HeaderPriority}) first = false } else { cc.fr.WriteContinuation(streamID, endHeaders, chunk) } } cc.bw.Flush() return cc.werr }".
 Proof. exact (conj always_copy_go_as_modelled h2_write_headers_go_as_modelled). Qed.
 Print Assumptions C16_round5_go_as_modelled.
+
+Theorem C16_round6_go_as_modelled :
+  (h2_src_cancel_check_offset <? h2_src_encode_call_offset)%N = true /\
+  src_h3_WriteRequestHeader = bs "{ buf := &bytes.Buffer{} if err := w.writeHeaders(buf, req, gzip, dumps); err != nil { return err } _, err := str.Write(buf.Bytes()) return err }".
+Proof. exact (conj h2_cancel_check_precedes_encoding h3_write_request_header_go_as_modelled). Qed.
+Print Assumptions C16_round6_go_as_modelled.
 
 Example C16_nonvacuous :
   let order := [bs "x-b"; bs "COOKIE"; bs "x-a"; bs "x-b"] in
